@@ -31,11 +31,12 @@ def main(argv=None):
     reach = None
     try:
         mod = importlib.import_module('vmon.props.' + opts.prop.lower())
-        from vmon.model import set_declaration_order_varies, set_large_sizes
+        from vmon.model import set_cell_scale_varies, set_declaration_order_varies, set_large_sizes
         from vmon.model.grids import set_wide_longitudes
         set_large_sizes(opts.tier == 'thorough')
         set_declaration_order_varies(False)     # drivers switch these two on themselves
         set_wide_longitudes(False)
+        set_cell_scale_varies(False)
         ctx = Context(opts, obs)
         anchors = getattr(mod, 'ANCHORS', [])
         reach = probes.ReachMonitor(anchors)
